@@ -230,6 +230,9 @@ def partition_problem(
         if isinstance(inst.operation, TwoQubitQPDGate):
             bases.append(inst.operation.basis)
             inst.operation.label = f"{inst.operation.label}_{i}"
+            # A definition cached before the relabelling still carries the old
+            # label; drop it so that the halves are rebuilt with the cut index.
+            inst.operation.definition = None
             i += 1
 
     # Separate the decomposed circuit into its subcircuits
